@@ -699,7 +699,7 @@ class Mismatch(Exception):
 
 
 def strip_banner(text):
-    return "\n".join(l for l in text.split("\n") if not l.startswith("// Date") and not l.startswith("// Generated") and "Auto-generated" not in l)
+    return "\n".join(l for l in text.split("\n") if not l.startswith("// Date") and not l.startswith("// Generated") and "auto-generated" not in l.lower())
 
 
 def run(scn):
@@ -777,6 +777,7 @@ def run_design(scn, build):
     nx = [0, 0]
     prev = {}
 
+    trace = hashlib.sha256()
     has_mem = bool(db["mems"])
     rst_ids = {id(cd.rst) for cd in db.get("rsts", {d: cd for d, cd in db["cds"].items() if cd.rst is not None}).values()}
 
@@ -798,11 +799,14 @@ def run_design(scn, build):
                     state["tainted"] = mon.hit
                     return
                 # 1. compare the state before this tick's edges
+                row = [k]
                 for idx, (s, nm) in enumerate(zip(db["signals"], names)):
                     if nm is None or nm not in des.vars or id(s) in f8_skip:
                         continue
                     ref = sv.get(s, s.reset.value) & ((1 << len(s)) - 1)
                     got = des.get(nm)
+                    row.append(ref)
+                    row.append(got)
                     nx[0] += 1
                     if got is None:
                         nx[1] += 1
@@ -830,6 +834,7 @@ def run_design(scn, build):
                         if got != ref:
                             V("memory_mismatch", "%s[%d]" % (mn, wi), "tick %d: simulation holds 0x%x, the generated Verilog holds 0x%x"
                               % (k, ref, got), k)
+                trace.update(repr(row).encode())      # both value traces go into the run digest (determinism self-test)
                 if scn.get("_watch"):
                     print("t%d" % k, " ".join("%s=%x/%s" % (nm, sv.get(s_, s_.reset.value) & ((1 << len(s_)) - 1), des.get(nm))
                                               for s_, nm in zip(db["signals"], names) if nm in scn["_watch"] and nm in des.vars))
@@ -910,6 +915,8 @@ def run_design(scn, build):
     h = hashlib.sha256(strip_banner(text).encode())
     h.update(repr(scn.get("stim") if not isinstance(scn.get("stim"), list) else len(scn["stim"])).encode())
     h.update(repr(scn.get("schedule")).encode())
+    h.update(trace.digest())
+    h.update(repr(state.get("tainted")).encode())
     stats["fingerprints"] = [hashlib.sha256(strip_banner(text).encode()).hexdigest()[:12]]
     stats["disagreements_checked"] = int(bool(viols) or bool(state.get("tainted")))
     return {"violations": viols, "digest": h.hexdigest()[:16], "stats": stats}
